@@ -275,12 +275,16 @@ def plan_C13(tier, seed, q):
 def plan_C14(tier, seed, q):
     n = 3000 if q else 100000
     jobs = pool_jobs("C14", tier, seed, [("restart", n), ("limits", n // 3)], shards=8 if q else 16)
+    jobs += one("rt", "restart", "C14", tier, seed, timeout=1500 if q else 3300, extra={"n": 16 if q else 200})
     if not q:
         jobs += pool_jobs("C14", tier, seed + 1, [("restart", 800)], shards=8, kind="vt-race", timeout=3000)
     return {"level": "fault_enumeration", "rule": POOL_RULE + "; class 'restart': one sequential caller with call spacing from {10 ms .. 6 s} around "
             "KeepAlive/IdleConnTimeout, server killed at a PRNG-chosen call and restarted 1-4 calls later; oracles: an execution appears only in a "
             "ledger of the requested address; while down calls return ErrDial/ErrShutdown in zero virtual time; ErrShutdown failures after the kill "
-            "<= connections pooled at the kill (hook H3); no other error once restarted; the caller succeeds again",
+            "<= connections pooled at the kill (hook H3); no other error once restarted; the caller succeeds again; plus engine 'restart' on real "
+            "sockets (tcp / unix / inproc, with and without TLS, poll and ordinary servers): the server is closed and another one started on the same "
+            "address; once a direct dial reaches it, 2*max+3 sequential calls through the Transport see at most one ErrShutdown per connection pooled "
+            "at the kill, no other error, and the last one succeeds (counted, not timed)",
             "jobs": jobs, "min_evaluations": 100, "min_distinct": 50, "assumptions": V_ASSUME}
 
 
@@ -350,6 +354,7 @@ def plan_C18(tier, seed, q):
 def plan_C20(tier, seed, q):
     n = 4000 if q else 150000
     jobs = shard("vt", "lifecycle", "C20", tier, seed, n, 8 if q else 16, timeout=1500 if q else 3000)
+    jobs += one("rt", "restart", "C20", tier, seed, timeout=1500 if q else 3300, extra={"n": 12 if q else 120})
     if not q:
         jobs += shard("vt-race", "lifecycle", "C20", tier, seed + 1, 1500, 8, timeout=3000)
     return {"level": "exploration",
@@ -358,7 +363,8 @@ def plan_C20(tier, seed, q):
                     "every order of closing {connections, Transport, Client, Server} (each Close called twice), then the handler gates are opened; at "
                     "quiescence plus 5 virtual seconds: no goroutine created since the scenario began has a frame of hslam/rpc, scheduler, writer or socket "
                     "on its stack, no memnet connection end is open on either side, Listen has returned, second Conn.Close == ErrShutdown, the other "
-                    "second Close calls == nil; distinct = distinct history parameters",
+                    "second Close calls == nil; plus engine 'restart' on real sockets: after a server was closed and another one listens on the same address "
+                    "(tcp / unix / inproc), closing the first one again returns nil and leaves the second one reachable; distinct = distinct history parameters",
             "jobs": jobs, "min_evaluations": 100, "min_distinct": 50, "assumptions": V_ASSUME + ["poll-mode servers are excluded by the statement"]}
 
 
